@@ -128,7 +128,7 @@ def execute(case: dict) -> dict:
                 stats["runaway"] = len(handled)
                 if request.transport is not None:
                     request.transport.abort()
-            r = reqs[i] if 0 <= i < len(reqs) else {"h": "ret"}
+            r = reqs[i] if 0 <= i < len(reqs) else {"h": case.get("bad_handler", "ret")}  # the malformed element carries no id
             kind = r.get("h", "ret")
             hdr = {"X-Resp-Id": str(i)}
             if kind == "yield":
@@ -358,6 +358,12 @@ def execute(case: dict) -> dict:
                     raise Violation("response-body", f"request {who} ({kind}): body {r.body[:40]!r}, expected {want!r}")
                 if kind == "read_body" and not is_head and r.body != f"r{who}:{reqs[who].get('n', 0) if reqs[who].get('body', 'none') != 'none' else 0}".encode():
                     raise Violation("request-body-length", f"request {who}: handler saw {r.body!r}")
+        # malformed input is the client's error: no 5xx unless a handler of this pipeline fails by itself
+        if not any(r.get("h") in ("exc", "non_response", "timeout", "partial_raise", "partial_timeout") for r in reqs):
+            bad5 = [x.status for x in finals if x.status >= 500]
+            if bad5:
+                raise Violation("client-error-answered-5xx", f"statuses {[x.status for x in finals]}: a 5xx although no handler fails by itself "
+                                f"(handlers {[r.get('h') for r in reqs]}; malformed element: {bytes(case.get('bad') or b'')[:80]!r})")
         # unparsable input => 4xx and close (when every earlier request was answered normally with keep-alive)
         if bad_is_reject and disc is None:
             before = [reqs[i] for i in range(min(bad_at, len(reqs)))]
@@ -454,6 +460,7 @@ def cases(draw, deep: bool = False, with_bad: bool = False):
         reqs.append(r)
     case = {"requests": reqs, "cuts": draw(st.one_of(st.just([]), st.lists(st.integers(1, 60), min_size=1, max_size=6), st.just([1])))}
     if with_bad:
+        case["bad_handler"] = draw(st.sampled_from(["ret", "read_body", "read_body"]))  # who reads the body meets its defects
         case["bad_at"] = draw(st.integers(0, n))
         src = draw(st.integers(0, 2))
         if src == 0:
